@@ -222,6 +222,18 @@ func runNeutral(repo string) int {
 		if m.Rule != "NEUTRAL" {
 			continue
 		}
+		// development aid: GORMVERIF_NEUTRAL_ONLY=<substring,...> runs a part of the battery
+		if only := os.Getenv("GORMVERIF_NEUTRAL_ONLY"); only != "" {
+			hit := false
+			for _, o := range strings.Split(only, ",") {
+				if strings.Contains(m.Name, o) {
+					hit = true
+				}
+			}
+			if !hit {
+				continue
+			}
+		}
 		dir, err := os.MkdirTemp("", "gormverif-neutral-")
 		if err != nil {
 			fmt.Println(err)
